@@ -45,7 +45,8 @@ THEOREMS = [
     'Emg.smoothingC_energy_le_reach',
     # ... and strictly decreasing for strictly dissipative models
     'Emg.energy_eq_zero', 'Emg.relaxAll_energy_lt', 'Emg.kernelBlocks_cover',
-    'Emg.kernel_energy_lt', 'Emg.smoothing_energy_lt',
+    'Emg.kernel_energy_lt', 'Emg.smoothing_energy_lt', 'Emg.PhysRS.reach',
+    'Emg.smoothingC_energy_lt_reach',
 ]
 
 BASELINE = os.path.join(os.path.dirname(__file__), 'c06_baseline.json')
